@@ -1645,7 +1645,13 @@ func (m *c17M) connect(n *simnet.Net, op c17MOp, who string) *c17MC {
 		if c.takeAtCap {
 			r.Probe("mqtt.takeover_at_cap_refused")
 		}
-		if occ := m.occupants(c, c.sentSeq); len(occ) < m.cap {
+		if m.begunBeforeUpdate(c) {
+			// the socket was opened to a broker that an update of the proxy closed
+			// before its CONNECT was handled: that broker may drop it (see above) or
+			// tell it that the server is unavailable - it is (found by a legal
+			// alternative, DESIGN §16: the drop had been accepted, the refusal not)
+			r.Probe("mqtt.handshake_refused_by_proxy_update")
+		} else if occ := m.occupants(c, c.sentSeq); len(occ) < m.cap {
 			r.Violate("C17.mqtt-refused-below-cap", "connection s%d (%s) was refused with server-unavailable although at most the ids %v could occupy a slot while it was connecting, maxAllowedConnection=%d; broker's own table: %v\nhistory: %s", c.sid, c.id, occ, m.cap, m.brokerIDs(), m.history())
 		}
 		c17Drain(conn)
